@@ -211,7 +211,10 @@ static void event_cb(void *cookie)
 static void scn_spin(struct loopthr *lt, struct vt_wait *w)
 {
 	int i, n = 0;
-	(void)w;
+	/* C07: "every wake-up makes progress instead of polling repeatedly without dispatching anything" */
+	mon_viol("C07", "spin-without-dispatch", g_method,
+		 "loop %d went through 3000 consecutive poll rounds that reported ready descriptors (last: %d) without the library making a single call-back",
+		 lt->idx, w->ret);
 	for (i = 0; i < MAXEV; i++) {
 		if (atomic_load(&ev[i].state) != 1 || ev[i].owner != lt->idx || !(ev[i].last_post_seq > ev[i].last_entry_seq))
 			continue;
